@@ -170,9 +170,18 @@ func newWorldWith(dir string, yield func(), ups *upstreamFn, wo worldOpts) (*wor
 		return nil, fmt.Errorf("danger: %w", err)
 	}
 	idx := &url.URL{Scheme: "file", Path: filepath.Join(dir, "index.json")}
+	svcConf := &filterstorage.ConfigBlockedServices{Enabled: false}
+	if wo.ruleLists {
+		// blocked-service index with result caches, as in production
+		svcConf = &filterstorage.ConfigBlockedServices{IndexURL: &url.URL{Scheme: "file", Path: filepath.Join(dir, "services.json")},
+			IndexMaxSize: datasize.MB, IndexRefreshTimeout: time.Second, IndexStaleness: time.Hour, ResultCacheCount: 1000, ResultCacheEnabled: true, Enabled: true}
+		if err = writeRuleLists(dir); err != nil {
+			return nil, fmt.Errorf("writing rule lists: %w", err)
+		}
+	}
 	fs, err := filterstorage.New(&filterstorage.Config{
 		BaseLogger: stack.Logger(), Logger: stack.Logger(),
-		BlockedServices:   &filterstorage.ConfigBlockedServices{Enabled: false},
+		BlockedServices:   svcConf,
 		Custom:            &filterstorage.ConfigCustom{CacheCount: 100},
 		HashPrefix:        &filterstorage.ConfigHashPrefix{Adult: adult, Dangerous: danger},
 		RuleLists:         &filterstorage.ConfigRuleLists{IndexURL: idx, IndexMaxSize: datasize.MB, MaxSize: datasize.MB, IndexRefreshTimeout: time.Second, IndexStaleness: time.Hour, RefreshTimeout: time.Second, Staleness: time.Hour, ResultCacheCount: 100, ResultCacheEnabled: true},
@@ -184,9 +193,6 @@ func newWorldWith(dir string, yield func(), ups *upstreamFn, wo worldOpts) (*wor
 		return nil, fmt.Errorf("filterstorage: %w", err)
 	}
 	if wo.ruleLists {
-		if err = writeRuleLists(dir); err != nil {
-			return nil, fmt.Errorf("writing rule lists: %w", err)
-		}
 		if err = fs.RefreshInitial(context.Background()); err != nil {
 			return nil, fmt.Errorf("filterstorage initial refresh: %w", err)
 		}
